@@ -35,6 +35,17 @@ Definition bucket_starts (lo bl : Z) (k : nat) : list Z := map (fun i => lo + Z.
 Definition win_max_bucket (ev : Z) (h : list sev) (lo bl : Z) (k : nat) : Z :=
   fmax (fun b => win_sum ev h b (b + bl)) (bucket_starts lo bl k).
 
+Lemma mul_le_cancel a b c : 0 < c -> a * c <= b * c -> a <= b.
+Proof. intros. nia. Qed.
+Lemma mul_lt_cancel a b c : 0 < c -> a * c < b * c -> a < b.
+Proof. intros. nia. Qed.
+
+Lemma neg_aligned b bl : 0 < bl -> b mod bl = 0 -> b < 0 -> b + bl <= 0.
+Proof.
+  intros Hbl Hm Hb. apply Z.mod_divide in Hm; [|lia]. destruct Hm as [q ->].
+  assert (q < 0) by (apply (mul_lt_cancel _ _ bl Hbl); lia). nia.
+Qed.
+
 Lemma mb_eq_dec (x y : mb) : {x = y} + {x <> y}.
 Proof. decide equality; apply Z.eq_dec. Qed.
 
@@ -99,8 +110,9 @@ Proof.
     apply Z.leb_le in Hp1, Hp2.
     apply Z.mod_divide in Ha; [|lia]. destruct Ha as [q1 Hq1].
     unfold bucket_starts. apply in_map_iff. exists (Z.to_nat (q1 - (q2 + 1 - q3))).
-    assert (q2 + 1 - q3 <= q1) by (unfold lo in Hst; nia).
-    assert (q1 <= q2) by nia.
+    assert (q2 + 1 - q3 <= q1).
+    { apply (mul_le_cancel _ _ bl Hbl). unfold lo in Hst. rewrite Hbs, Hq3 in Hst. lia. }
+    assert (q1 <= q2) by (apply (mul_le_cancel _ _ bl Hbl); lia).
     split.
     + rewrite Z2Nat.id by lia. unfold lo. rewrite Hq1, Hbs, Hq3. ring.
     + apply in_seq. split; [lia|]. apply Nat2Z.inj_lt. rewrite Nat2Z.inj_add, !Z2Nat.id by lia. cbn. lia.
@@ -108,8 +120,10 @@ Proof.
     apply fmax_le; [apply fmax_ge0|]. intros b Hb.
     unfold bucket_starts in Hb. apply in_map_iff in Hb. destruct Hb as (i & <- & Hi2).
     apply in_seq in Hi2. set (b := lo + Z.of_nat i * bl).
-    assert (Hiq : 0 <= Z.of_nat i < q3) by (split; [lia|]; apply Nat2Z.inj_lt in Hi2 ||
-      (destruct Hi2 as [_ Hi2]; cbn in Hi2; apply Nat2Z.inj_lt in Hi2; rewrite Z2Nat.id in Hi2 by lia; lia)).
+    assert (Hiq : 0 <= Z.of_nat i < q3) by lia.
+    assert (Hib1 : 0 <= Z.of_nat i * bl) by (apply Z.mul_nonneg_nonneg; lia).
+    assert (Hib2 : Z.of_nat i * bl + bl <= q3 * bl).
+    { replace (Z.of_nat i * bl + bl) with ((Z.of_nat i + 1) * bl) by ring. apply Z.mul_le_mono_nonneg_r; lia. }
     destruct (mb_eq_dec (ref mb_op mb_e (map sev_gev h) b (b + bl)) mb_e) as [E|NE].
     + rewrite <- (ref_win_sum ev h _ _ Hev), E.
       assert (Z0 : mb_get ev mb_e = 0).
@@ -123,15 +137,626 @@ Proof.
       assert (Hb0 : 0 <= b).
       { destruct (Z_le_gt_dec 0 b) as [|Hneg]; [assumption|exfalso]. apply NE.
         apply (ref_before t0); [assumption|].
-        apply Z.mod_divide in Hbm; [|lia]. destruct Hbm as [qb Hqb]. nia. }
-      assert (Hbr : lo <= b <= bstart bl now) by (unfold b, lo; rewrite Hq3; nia).
+        pose proof (neg_aligned b bl Hbl Hbm ltac:(lia)). lia. }
+      assert (Hbr : lo <= b <= bstart bl now) by (unfold b, lo; rewrite Hq3; lia).
       assert (Hin : In (b, ref mb_op mb_e (map sev_gev h) b (b + bl)) (g_values_cond n bl L now pred)).
-      { apply (bla_nothing_lost n itv Hn Hd Hi t0 h now pred b); try assumption; try lia.
-        - fold bl. unfold lo in Hbr. lia.
-        - unfold pred. apply andb_true_intro. split; apply Z.leb_le; [|lia].
+      { apply (bla_nothing_lost n itv Hn Hd Hi t0 h now pred b); try assumption; try lia;
+          try (fold bl; unfold lo in Hbr; lia).
+        unfold pred. apply andb_true_intro. split; apply Z.leb_le; [|lia].
           destruct Hst as (_ & _ & Hst3). destruct (Z_le_gt_dec 0 lo); [rewrite Hst3 by lia; lia|].
-          unfold st. unfold lo in *. destruct (Z.ltb_spec vitv (bstart bl now + bl)); lia.
-        - unfold lo in Hbr. lia. }
+          unfold st. unfold lo in *. destruct (Z.ltb_spec vitv (bstart bl now + bl)); lia. }
       rewrite <- (ref_win_sum ev h _ _ Hev).
       apply (fmax_in (fun s : Z * mb => mb_get ev (snd s)) _ _ Hin).
 Qed.
+
+(* ------------------------------------------------------------------------------------------ *)
+(* Part B: the inbound node after a ledger of statistic events *)
+
+Definition nev_time (e : nev) : Z := match e with NPass t _ => t | NBlock t _ => t | NComplete t _ _ _ => t end.
+
+(* the AddCount / UpdateConcurrency calls a ledger performs on the leap array; c = gauge before *)
+Fixpoint expand (c : Z) (l : list nev) : list sev :=
+  match l with
+  | [] => []
+  | NPass t b :: r => SConc t (i32 (c + 1)) :: SAdd t EvPass b :: expand (i32 (c + 1)) r
+  | NBlock t b :: r => SAdd t EvBlock b :: expand c r
+  | NComplete t b rt err :: r =>
+      (if err then [SAdd t EvError b] else []) ++ SAdd t EvRt rt :: SAdd t EvComplete b :: expand (i32 (c - 1)) r
+  end.
+
+Fixpoint conc_after (c : Z) (l : list nev) : Z :=
+  match l with
+  | [] => c
+  | NPass _ _ :: r => conc_after (i32 (c + 1)) r
+  | NBlock _ _ :: r => conc_after c r
+  | NComplete _ _ _ _ :: r => conc_after (i32 (c - 1)) r
+  end.
+
+Fixpoint nmono (tl : Z) (l : list nev) : Prop :=
+  match l with [] => True | e :: r => tl <= nev_time e /\ nmono (nev_time e) r end.
+Fixpoint nlast (tl : Z) (l : list nev) : Z :=
+  match l with [] => tl | e :: r => nlast (nev_time e) r end.
+
+Lemma bla_run_app a h1 h2 : bla_run a (h1 ++ h2) = bla_run (bla_run a h1) h2.
+Proof. unfold bla_run. apply fold_left_app. Qed.
+
+Lemma node_apply_list l : forall x,
+  nd_arr (fold_left node_apply l x) = bla_run (nd_arr x) (expand (nd_conc x) l) /\
+  nd_conc (fold_left node_apply l x) = conc_after (nd_conc x) l /\
+  nd_view (fold_left node_apply l x) = nd_view x.
+Proof.
+  induction l as [|e r IH]; intros x; cbn [fold_left expand conc_after]; [auto|].
+  destruct (IH (node_apply x e)) as (H1 & H2 & H3). rewrite H1, H2, H3.
+  destruct e as [t b|t b|t b rt err]; cbn [node_apply].
+  - cbn [node_add node_inc nd_arr nd_conc nd_view]. auto.
+  - cbn [node_add nd_arr nd_conc nd_view]. auto.
+  - destruct err; cbn [node_add node_dec nd_arr nd_conc nd_view app]; auto.
+Qed.
+
+Lemma expand_mono l : forall tl c, nmono tl l -> smono tl (expand c l) /\ slast tl (expand c l) = nlast tl l.
+Proof.
+  induction l as [|e r IH]; intros tl c; cbn [nmono expand nlast]; [cbn; auto|].
+  intros [H1 H2]. destruct e as [t b|t b|t b rt err]; cbn [nev_time] in *.
+  - destruct (IH t (i32 (c + 1)) H2) as [A B]. cbn [smono slast sev_time]. repeat split; try lia; assumption.
+  - destruct (IH t c H2) as [A B]. cbn [smono slast sev_time]. repeat split; try lia; assumption.
+  - destruct (IH t (i32 (c - 1)) H2) as [A B].
+    destruct err; cbn [app smono slast sev_time]; repeat split; try lia; assumption.
+Qed.
+
+(* ------------------------------------------------------------------------------------------ *)
+(* the ledger of a run and the bookkeeping invariants *)
+
+Fixpoint ledger (s : sstate) (ops : list sop) : list nev :=
+  match ops with [] => [] | o :: r => step_events s o ++ ledger (fst (sys_step s o)) r end.
+
+Definition op_time (o : sop) : option Z :=
+  match o with OEntry t _ _ _ => Some t | OExit t _ _ => Some t | OProbe t => Some t | _ => None end.
+
+(* clock readings never decrease along the history *)
+Fixpoint hist_mono (tl : Z) (ops : list sop) : Prop :=
+  match ops with
+  | [] => True
+  | o :: r => match op_time o with Some t => tl <= t /\ hist_mono t r | None => hist_mono tl r end
+  end.
+Fixpoint hist_last (tl : Z) (ops : list sop) : Z :=
+  match ops with
+  | [] => tl
+  | o :: r => match op_time o with Some t => hist_last t r | None => hist_last tl r end
+  end.
+
+Lemma hist_last_ge ops : forall tl, hist_mono tl ops -> tl <= hist_last tl ops.
+Proof.
+  induction ops as [|o r IH]; intros tl; cbn [hist_mono hist_last]; [lia|].
+  destruct (op_time o) as [t|]; [intros [H1 H2]; specialize (IH _ H2); lia|apply IH].
+Qed.
+
+Lemma sys_after_cons s o r : sys_after s (o :: r) = sys_after (fst (sys_step s o)) r.
+Proof. reflexivity. Qed.
+
+Lemma step_node s o : st_node (fst (sys_step s o)) = fold_left node_apply (step_events s o) (st_node s).
+Proof.
+  destruct o as [l|f|f|t inb b ord|t k err|t]; cbn [sys_step].
+  - destruct (sys_load (st_rules s) l). reflexivity.
+  - reflexivity.
+  - reflexivity.
+  - destruct (decide s t inb ord) as [[r v]|]; reflexivity.
+  - reflexivity.
+  - reflexivity.
+Qed.
+
+Lemma after_node ops : forall s, st_node (sys_after s ops) = fold_left node_apply (ledger s ops) (st_node s).
+Proof.
+  induction ops as [|o r IH]; intros s; [reflexivity|].
+  rewrite sys_after_cons, IH. cbn [ledger]. rewrite fold_left_app, step_node. reflexivity.
+Qed.
+
+Lemma step_events_shape s o :
+  step_events s o = [] \/ exists e, step_events s o = [e] /\ op_time o = Some (nev_time e).
+Proof.
+  destruct o as [l|f|f|t inb b ord|t k err|t]; cbn [step_events op_time]; auto.
+  - destruct inb; [|auto]. destruct (decide s t true ord); right; eexists; split; reflexivity.
+  - destruct (find_live k (st_live s)) as [e|]; [|auto]. destruct (le_inbound e); [|auto].
+    right; eexists; split; reflexivity.
+Qed.
+
+Lemma nmono_weaken tl tl' l : tl' <= tl -> nmono tl l -> nmono tl' l.
+Proof. destruct l as [|e l]; cbn [nmono]; [trivial|]. intros H [X Y]. split; [lia|assumption]. Qed.
+Lemma nlast_weaken tl tl' l m : tl' <= tl -> nlast tl l <= m -> nlast tl' l <= m.
+Proof. destruct l as [|e l]; cbn [nlast]; [lia|trivial]. Qed.
+
+Lemma ledger_mono ops : forall s tl, hist_mono tl ops ->
+  nmono tl (ledger s ops) /\ nlast tl (ledger s ops) <= hist_last tl ops.
+Proof.
+  induction ops as [|o r IH]; intros s tl; cbn [hist_mono hist_last ledger]; [cbn; intros; split; [trivial|lia]|].
+  intros Hm. destruct (step_events_shape s o) as [E|(e & E & Et)]; rewrite E; cbn [app].
+  - destruct (op_time o) as [t|].
+    + destruct Hm as [H1 H2]. destruct (IH (fst (sys_step s o)) t H2) as [A B].
+      split; [apply (nmono_weaken t); assumption|apply (nlast_weaken t); assumption].
+    + apply IH. assumption.
+  - rewrite Et in *. destruct Hm as [H1 H2]. destruct (IH (fst (sys_step s o)) (nev_time e) H2) as [A B].
+    cbn [nmono nlast]. repeat split; assumption.
+Qed.
+
+(* gauge bookkeeping *)
+Definition delta1 (e : nev) : Z := match e with NPass _ _ => 1 | NBlock _ _ => 0 | NComplete _ _ _ _ => -1 end.
+(* admitted minus completed inbound entries of a ledger *)
+Definition in_flight (l : list nev) : Z := sumZ (map delta1 l).
+
+Definition linb (l : list live_entry) : Z := Z.of_nat (length (filter le_inbound l)).
+(* inbound entries admitted and not yet exited *)
+Definition live_inbound (s : sstate) : Z := linb (st_live s).
+
+Definition WF (s : sstate) (k : Z) : Prop :=
+  nd_conc (st_node s) = live_inbound s /\ Z.of_nat (length (st_live s)) <= k /\
+  Forall (fun e => le_id e < st_next s) (st_live s) /\ NoDup (map le_id (st_live s)).
+
+Lemma linb_le l : 0 <= linb l <= Z.of_nat (length l).
+Proof.
+  unfold linb. induction l as [|e r IH]; cbn [filter length]; [lia|].
+  destruct (le_inbound e); cbn [length]; lia.
+Qed.
+
+Lemma remove_live_absent k l : ~ In k (map le_id l) -> remove_live k l = l.
+Proof.
+  induction l as [|e r IH]; cbn [remove_live filter map In]; [reflexivity|]. intros H.
+  destruct (Z.eqb_spec (le_id e) k) as [E|E]; [exfalso; auto|]. cbn [negb].
+  f_equal. apply IH. tauto.
+Qed.
+
+Lemma find_live_none k l : find_live k l = None -> ~ In k (map le_id l).
+Proof.
+  induction l as [|e r IH]; cbn [find_live map In]; [tauto|].
+  destruct (Z.eqb_spec (le_id e) k) as [E|E]; [discriminate|]. intros H [X|X]; [auto|]. apply (IH H X).
+Qed.
+
+Lemma remove_live_sub k l : forall e, In e (remove_live k l) -> In e l.
+Proof. intros e H. apply filter_In in H. tauto. Qed.
+
+Lemma remove_live_length k l : (length (remove_live k l) <= length l)%nat.
+Proof. unfold remove_live. induction l as [|e r IH]; cbn [filter length]; [lia|]. destruct (negb _); cbn [length]; lia. Qed.
+
+Lemma remove_live_nodup k l : NoDup (map le_id l) -> NoDup (map le_id (remove_live k l)).
+Proof.
+  induction l as [|e r IH]; cbn [remove_live filter map]; [auto|]. intros H. inversion H as [|? ? Hn Hr]; subst.
+  fold (remove_live k r). destruct (negb (le_id e =? k)); [|auto].
+  cbn [map]. constructor; [|auto]. intros X. apply Hn.
+  apply in_map_iff in X. destruct X as (e' & E1 & E2). apply in_map_iff. exists e'. split; [assumption|].
+  apply (remove_live_sub k r). assumption.
+Qed.
+
+Lemma remove_live_found k l e : NoDup (map le_id l) -> find_live k l = Some e ->
+  le_id e = k /\ In e l /\ linb (remove_live k l) = linb l - (if le_inbound e then 1 else 0).
+Proof.
+  induction l as [|x r IH]; cbn [find_live]; [discriminate|]. intros Hnd.
+  inversion Hnd as [|? ? Hn Hr]; subst.
+  destruct (Z.eqb_spec (le_id x) k) as [E|E].
+  - intros X. injection X as <-. split; [assumption|]. split; [left; reflexivity|].
+    cbn [remove_live filter]. rewrite (proj2 (Z.eqb_eq _ _) E). cbn [negb]. fold (remove_live k r).
+    rewrite remove_live_absent by (rewrite <- E; assumption).
+    unfold linb. cbn [filter]. destruct (le_inbound x); cbn [length]; lia.
+  - intros X. destruct (IH Hr X) as (A & B & C). split; [assumption|]. split; [right; assumption|].
+    cbn [remove_live filter]. rewrite (proj2 (Z.eqb_neq _ _) E). cbn [negb]. fold (remove_live k r).
+    unfold linb in *. cbn [filter]. destruct (le_inbound x); cbn [length]; lia.
+Qed.
+
+Lemma linb_in e l : In e l -> le_inbound e = true -> 1 <= linb l.
+Proof.
+  unfold linb. induction l as [|x r IH]; cbn [In filter]; [tauto|]. intros [->|H] Hi.
+  - rewrite Hi. cbn [length]. lia.
+  - specialize (IH H Hi). destruct (le_inbound x); cbn [length]; lia.
+Qed.
+
+Transparent two31 two32.
+Lemma i32_small x : - two31 <= x < two31 -> i32 x = x.
+Proof. intros H. apply i32_id. exact H. Qed.
+
+(* one operation preserves the bookkeeping; the int32 gauge does not wrap while fewer than
+   2^31 - 1 entries are live *)
+Lemma WF_step s k o : WF s k -> k + 1 < two31 ->
+  WF (fst (sys_step s o)) (k + 1) /\
+  nd_conc (st_node (fst (sys_step s o))) = nd_conc (st_node s) + in_flight (step_events s o).
+Proof.
+  intros (Hc & Hlen & Hid & Hnd) Hk. unfold WF, live_inbound in *.
+  pose proof (linb_le (st_live s)) as Hlb.
+  rewrite step_node. destruct (node_apply_list (step_events s o) (st_node s)) as (_ & -> & _).
+  destruct o as [l|f|f|t inb b ord|t kk err|t]; cbn [sys_step step_events].
+  - destruct (sys_load (st_rules s) l). cbn [fst st_node st_live st_next conc_after in_flight map sumZ fold_right].
+    repeat split; try assumption; lia.
+  - cbn [fst st_node st_live st_next conc_after in_flight map sumZ fold_right]. repeat split; try assumption; lia.
+  - cbn [fst st_node st_live st_next conc_after in_flight map sumZ fold_right]. repeat split; try assumption; lia.
+  - destruct inb.
+    + destruct (decide s t true ord) as [[r v]|];
+        cbn [fst st_node st_live st_next conc_after in_flight map sumZ fold_right delta1].
+      * repeat split; try assumption; try lia.
+        eapply Forall_impl; [|exact Hid]. cbn. intros; lia.
+      * rewrite i32_small by lia. unfold linb. cbn [filter le_inbound length map le_id].
+        unfold linb in Hc, Hlb. repeat split; try lia.
+        -- constructor; [cbn; lia|]. eapply Forall_impl; [|exact Hid]. cbn. intros; lia.
+        -- constructor; [|assumption]. intros X. apply in_map_iff in X. destruct X as (e & E1 & E2).
+           rewrite Forall_forall in Hid. specialize (Hid e E2). lia.
+    + assert (D : decide s t false ord = None) by reflexivity. rewrite D.
+      cbn [fst st_node st_live st_next conc_after in_flight map sumZ fold_right].
+      unfold linb. cbn [filter le_inbound length map le_id]. unfold linb in Hc, Hlb. repeat split; try lia.
+      * constructor; [cbn; lia|]. eapply Forall_impl; [|exact Hid]. cbn. intros; lia.
+      * constructor; [|assumption]. intros X. apply in_map_iff in X. destruct X as (e & E1 & E2).
+        rewrite Forall_forall in Hid. specialize (Hid e E2). lia.
+  - cbn [fst st_node st_live st_next].
+    pose proof (remove_live_length kk (st_live s)) as Hrl.
+    pose proof (remove_live_nodup kk (st_live s) Hnd) as Hrn.
+    assert (Hrf : Forall (fun e => le_id e < st_next s) (remove_live kk (st_live s))).
+    { rewrite Forall_forall in *. intros e He. apply Hid. apply (remove_live_sub kk). assumption. }
+    destruct (find_live kk (st_live s)) as [e|] eqn:EF.
+    + destruct (remove_live_found kk (st_live s) e Hnd EF) as (A & B & C). rewrite C.
+      destruct (le_inbound e) eqn:EI; cbn [conc_after in_flight map sumZ fold_right delta1].
+      * pose proof (linb_in e _ B EI). rewrite i32_small by lia. repeat split; try assumption; lia.
+      * repeat split; try assumption; lia.
+    + rewrite remove_live_absent by (apply find_live_none; assumption).
+      cbn [conc_after in_flight map sumZ fold_right]. repeat split; try assumption; lia.
+  - cbn [fst st_node st_live st_next conc_after in_flight map sumZ fold_right]. repeat split; try assumption; lia.
+Qed.
+Opaque two31 two32.
+
+Lemma in_flight_app a b : in_flight (a ++ b) = in_flight a + in_flight b.
+Proof. unfold in_flight. rewrite map_app, sumZ_app. reflexivity. Qed.
+
+Lemma after_conc ops : forall s k, WF s k -> k + Z.of_nat (length ops) < two31 ->
+  WF (sys_after s ops) (k + Z.of_nat (length ops)) /\
+  nd_conc (st_node (sys_after s ops)) = nd_conc (st_node s) + in_flight (ledger s ops).
+Proof.
+  induction ops as [|o r IH]; intros s k Hw Hk.
+  - cbn [length sys_after fold_left ledger in_flight map sumZ fold_right]. rewrite Z.add_0_r. split; [assumption|lia].
+  - cbn [length] in Hk |- *. rewrite Nat2Z.inj_succ in *.
+    destruct (WF_step s k o Hw ltac:(lia)) as [Hw1 Hc1].
+    destruct (IH _ _ Hw1 ltac:(lia)) as [Hw2 Hc2].
+    rewrite sys_after_cons. cbn [ledger]. rewrite in_flight_app.
+    replace (k + Z.succ (Z.of_nat (length r))) with (k + 1 + Z.of_nat (length r)) by lia.
+    split; [assumption|]. rewrite Hc2, Hc1. lia.
+Qed.
+
+(* the rules in force are always valid ones *)
+Lemma step_rules_valid s o : Forall (fun r => sys_valid r = true) (sys_rules (st_rules s)) ->
+  Forall (fun r => sys_valid r = true) (sys_rules (st_rules (fst (sys_step s o)))).
+Proof.
+  intros H. destruct o as [l|f|f|t inb b ord|t k err|t]; cbn [sys_step]; try exact H.
+  - unfold sys_load. destruct (opt_eqb _ (sys_raw (st_rules s)) l); cbn [fst st_rules sys_rules]; [exact H|].
+    apply Forall_forall. intros r Hr. apply filter_In in Hr. tauto.
+  - destruct (decide s t inb ord) as [[r v]|]; exact H.
+Qed.
+
+Lemma after_rules_valid ops : forall s, Forall (fun r => sys_valid r = true) (sys_rules (st_rules s)) ->
+  Forall (fun r => sys_valid r = true) (sys_rules (st_rules (sys_after s ops))).
+Proof.
+  induction ops as [|o r IH]; intros s H; [exact H|]. rewrite sys_after_cons. apply IH, step_rules_valid, H.
+Qed.
+
+(* ------------------------------------------------------------------------------------------ *)
+(* Part C: what the slot reads equals the reference computed from the ledger alone *)
+
+Record readings := {
+  rd_qps : float;            (* total inbound admitted QPS *)
+  rd_conc : Z;               (* inbound in-flight count *)
+  rd_avg_rt : float;         (* inbound average response time *)
+  rd_min_rt : float;         (* minimum response time *)
+  rd_max_complete : float    (* peak completion rate (per second) *)
+}.
+
+Definition node_readings (x : node) (now : Z) : readings :=
+  {| rd_qps := node_qps x now EvPass; rd_conc := nd_conc x; rd_avg_rt := node_avg_rt x now;
+     rd_min_rt := node_min_rt x now; rd_max_complete := node_max_avg x now EvComplete |}.
+
+(* REFERENCE readings at clock [now] of an inbound node with geometry (gn x gitv array, vn x vitv
+   view) whose recorded history is the ledger L: plain window sums / minimum / per-bucket
+   maximum over the events of the bucket-aligned window (lo, hi], C08's reference *)
+Definition ref_readings (gn gitv vn vitv : Z) (L : list nev) (now : Z) : readings :=
+  let h := expand 0 L in
+  let bl := gitv / gn in
+  let hi := bstart bl now + bl in
+  let lo := hi - vitv in
+  {| rd_qps := (f_of_i64 (win_sum EvPass h lo hi) / (f_of_u64 vitv / 1000))%float;
+     rd_conc := in_flight L;
+     rd_avg_rt := (let complete := win_sum EvComplete h lo hi in
+                   if complete <=? 0 then 0%float else f_of_i64 (Z.quot (win_sum EvRt h lo hi) complete));
+     rd_min_rt := f_of_i64 (let m := win_min_rt h lo hi in if m <? 1 then 1 else m);
+     rd_max_complete := (f_of_i64 (win_max_bucket EvComplete h lo bl (Z.to_nat (vitv / bl)))
+                         * f_of_u64 vn / f_of_u64 vitv * 1000)%float |}.
+
+Lemma ev_ok_pass : ev_ok EvPass. Proof. unfold ev_ok, EvPass. lia. Qed.
+Lemma ev_ok_complete : ev_ok EvComplete. Proof. unfold ev_ok, EvComplete. lia. Qed.
+Lemma ev_ok_rt : ev_ok EvRt. Proof. unfold ev_ok, EvRt. lia. Qed.
+
+Lemma view_read n itv t0 h now vn vitv :
+  0 < n -> itv mod n = 0 -> 0 < itv < two32 ->
+  0 < t0 -> smono t0 h -> 0 <= vn -> 0 <= vitv ->
+  check_reuse vn vitv n itv = true ->
+  slast t0 h <= now < two62' ->
+  view_merge (bla_run (bla_new n itv t0) h) {| v_n := vn; v_itv := vitv |} now
+  = ref mb_op mb_e (map sev_gev h) (bstart (itv / n) now + itv / n - vitv) (bstart (itv / n) now + itv / n).
+Proof.
+  intros Hn Hd Hi Ht0 Hm Hvn Hvitv Hck Hnow.
+  destruct (check_reuse_tiles vn vitv n itv Hvn Hvitv ltac:(lia) ltac:(lia) Hck)
+    as (_ & Hv0 & _ & _ & _ & _ & _ & _ & _ & Hvle & _).
+  pose proof (slast_ge t0 h Hm).
+  apply (view_eq_ref n itv Hn Hd Hi t0 h now vn vitv); auto; try lia.
+  apply (read_now_ok n itv Hn Hd Hi); lia.
+Qed.
+
+Lemma node_readings_ref gn gitv vn vitv t0 L now x :
+  0 < gn -> gitv mod gn = 0 -> 0 < gitv < two32 -> 0 <= vn -> 0 <= vitv ->
+  check_reuse vn vitv gn gitv = true ->
+  0 < t0 -> nmono t0 L -> nlast t0 L <= now < two62' ->
+  nd_arr x = bla_run (bla_new gn gitv t0) (expand 0 L) ->
+  nd_view x = {| v_n := vn; v_itv := vitv |} ->
+  nd_conc x = in_flight L ->
+  node_readings x now = ref_readings gn gitv vn vitv L now.
+Proof.
+  intros Hn Hd Hi Hvn Hvitv Hck Ht0 Hm Hnow Ha Hv Hc.
+  destruct (expand_mono L t0 0 Hm) as [Hsm Hsl].
+  assert (Hnow' : slast t0 (expand 0 L) <= now < two62') by (rewrite Hsl; assumption).
+  pose proof (view_read gn gitv t0 (expand 0 L) now vn vitv Hn Hd Hi Ht0 Hsm Hvn Hvitv Hck Hnow') as HV.
+  assert (HS : forall ev, ev_ok ev ->
+    node_sum x now ev = win_sum ev (expand 0 L) (bstart (gitv / gn) now + gitv / gn - vitv) (bstart (gitv / gn) now + gitv / gn)).
+  { intros ev Hev. unfold node_sum, view_sum. rewrite Ha, Hv, HV. apply ref_win_sum. assumption. }
+  unfold node_readings, ref_readings. f_equal.
+  - unfold node_qps, view_qps. fold (node_sum x now EvPass). rewrite (HS _ ev_ok_pass), Hv. reflexivity.
+  - assumption.
+  - unfold node_avg_rt. rewrite (HS _ ev_ok_complete), (HS _ ev_ok_rt). reflexivity.
+  - unfold node_min_rt, view_min_rt. rewrite Ha, Hv, HV, ref_win_min_rt. reflexivity.
+  - unfold node_max_avg. rewrite Ha, Hv.
+    rewrite (view_max_single_ref gn gitv t0 (expand 0 L) now vn vitv EvComplete Hn Hd Hi Ht0 Hsm Hvn Hvitv Hck Hnow' ev_ok_complete).
+    reflexivity.
+Qed.
+
+(* ------------------------------------------------------------------------------------------ *)
+(* Part D: the decision *)
+
+(* estimated capacity exceeded: more than one request in flight, and more in flight than
+   peak completion rate x minimum response time (ms) / 1000 *)
+Definition over_capacity (rd : readings) : bool :=
+  (1 <? rd_conc rd) && (rd_max_complete rd * rd_min_rt rd / 1000 <? f_of_i64 (rd_conc rd))%float.
+
+(* the value a rule's metric type looks at *)
+Definition metric_value (rd : readings) (load cpu : float) (r : srule) : float :=
+  if s_metric r =? MtInboundQPS then rd_qps rd
+  else if s_metric r =? MtConcurrency then f_of_i64 (rd_conc rd)
+  else if s_metric r =? MtAvgRT then rd_avg_rt rd
+  else if s_metric r =? MtLoad then load
+  else if s_metric r =? MtCpuUsage then cpu
+  else 0%float.
+
+(* SPEC: rule r is violated at these readings.  QPS / in-flight / average RT: the value is not
+   below the trigger (it has reached it).  Load / cpu: the value is above the trigger and, for
+   the BBR strategy, the estimated capacity is exceeded. *)
+Definition violated (rd : readings) (load cpu : float) (r : srule) : bool :=
+  if s_metric r =? MtInboundQPS then negb (rd_qps rd <? s_trigger r)%float
+  else if s_metric r =? MtConcurrency then negb (f_of_i64 (rd_conc rd) <? s_trigger r)%float
+  else if s_metric r =? MtAvgRT then negb (rd_avg_rt rd <? s_trigger r)%float
+  else if s_metric r =? MtLoad then
+    (s_trigger r <? load)%float && (negb (s_strategy r =? BBR) || over_capacity rd)
+  else if s_metric r =? MtCpuUsage then
+    (s_trigger r <? cpu)%float && (negb (s_strategy r =? BBR) || over_capacity rd)
+  else false.
+
+Lemma check_bbr_spec x now : check_bbr_simple x now = negb (over_capacity (node_readings x now)).
+Proof.
+  unfold check_bbr_simple, over_capacity, node_readings. cbn [rd_conc rd_max_complete rd_min_rt].
+  destruct ((1 <? nd_conc x) && _); reflexivity.
+Qed.
+
+Lemma do_check_rule_spec x now load cpu r :
+  do_check_rule x now load cpu r
+  = (negb (violated (node_readings x now) load cpu r), metric_value (node_readings x now) load cpu r).
+Proof.
+  unfold do_check_rule, violated, metric_value. rewrite check_bbr_spec.
+  destruct (s_metric r =? MtInboundQPS); [cbn [node_readings rd_qps]; rewrite negb_involutive; reflexivity|].
+  destruct (s_metric r =? MtConcurrency); [cbn [node_readings rd_conc]; rewrite negb_involutive; reflexivity|].
+  destruct (s_metric r =? MtAvgRT); [cbn [node_readings rd_avg_rt]; rewrite negb_involutive; reflexivity|].
+  destruct (s_metric r =? MtLoad).
+  { destruct (s_trigger r <? load)%float; [|reflexivity]. rewrite negb_involutive.
+    destruct (negb (s_strategy r =? BBR) || over_capacity (node_readings x now)); reflexivity. }
+  destruct (s_metric r =? MtCpuUsage).
+  { destruct (s_trigger r <? cpu)%float; [|reflexivity]. rewrite negb_involutive.
+    destruct (negb (s_strategy r =? BBR) || over_capacity (node_readings x now)); reflexivity. }
+  reflexivity.
+Qed.
+
+Lemma check_rules_some x now load cpu rs r v :
+  check_rules x now load cpu rs = Some (r, v) ->
+  In r rs /\ violated (node_readings x now) load cpu r = true /\ v = metric_value (node_readings x now) load cpu r.
+Proof.
+  induction rs as [|a rest IH]; cbn [check_rules]; [discriminate|].
+  rewrite do_check_rule_spec.
+  destruct (violated (node_readings x now) load cpu a) eqn:E; cbn [negb].
+  - intros X. injection X as <- <-. split; [left; reflexivity|]. split; [assumption|reflexivity].
+  - intros X. destruct (IH X) as (A & B & C). split; [right; assumption|]. split; assumption.
+Qed.
+
+Lemma check_rules_none x now load cpu rs :
+  check_rules x now load cpu rs = None <->
+  forall r, In r rs -> violated (node_readings x now) load cpu r = false.
+Proof.
+  induction rs as [|a rest IH]; cbn [check_rules].
+  - split; [intros _ r []|reflexivity].
+  - rewrite do_check_rule_spec.
+    destruct (violated (node_readings x now) load cpu a) eqn:E; cbn [negb].
+    + split; [discriminate|]. intros H. rewrite (H a (or_introl eq_refl)) in E. discriminate.
+    + rewrite IH. split.
+      * intros H r [<-|Hr]; [assumption|apply H; assumption].
+      * intros H r Hr. apply H. right. assumption.
+Qed.
+
+Lemma in_get_rules rules ord r : In r (get_rules rules ord) <-> In r rules /\ In (s_metric r) ord.
+Proof.
+  unfold get_rules. rewrite in_flat_map. split.
+  - intros (mt & Hmt & Hr). unfold rules_of_metric in Hr. apply filter_In in Hr. destruct Hr as [Hr E].
+    apply Z.eqb_eq in E. subst mt. split; assumption.
+  - intros [Hr Ho]. exists (s_metric r). split; [assumption|]. apply filter_In. split; [assumption|apply Z.eqb_refl].
+Qed.
+
+(* Go's map iteration visits every key: every metric type that has loaded rules appears in ord *)
+Definition covers (ord : list Z) (rules : list srule) : Prop := forall r, In r rules -> In (s_metric r) ord.
+
+Lemma perm_covers ord rules : Permutation ord [0; 1; 2; 3; 4] ->
+  Forall (fun r => sys_valid r = true /\ 0 <= s_metric r) rules -> covers ord rules.
+Proof.
+  intros Hp Hv r Hr. rewrite Forall_forall in Hv. destruct (Hv r Hr) as [V N].
+  apply (Permutation_in _ (Permutation_sym Hp)).
+  unfold sys_valid in V. destruct (s_trigger r <? 0)%float; [discriminate|].
+  destruct (Z.leb_spec 5 (s_metric r)); [discriminate|].
+  assert (s_metric r = 0 \/ s_metric r = 1 \/ s_metric r = 2 \/ s_metric r = 3 \/ s_metric r = 4) by lia.
+  cbn [In]. intuition.
+Qed.
+
+(* ---- the decision of the slot in terms of the node's readings ---- *)
+Lemma slot_outbound x now load cpu rules ord : slot_check false x now load cpu rules ord = None.
+Proof. reflexivity. Qed.
+
+Lemma slot_blocked_sound x now load cpu rules ord r v :
+  slot_check true x now load cpu rules ord = Some (r, v) ->
+  In r rules /\ In (s_metric r) ord /\ violated (node_readings x now) load cpu r = true /\
+  v = metric_value (node_readings x now) load cpu r.
+Proof.
+  unfold slot_check. cbn [negb]. intros H. apply check_rules_some in H. destruct H as (A & B & C).
+  apply in_get_rules in A. tauto.
+Qed.
+
+Lemma slot_blocked_iff x now load cpu rules ord : covers ord rules ->
+  ((exists rv, slot_check true x now load cpu rules ord = Some rv) <->
+   exists r, In r rules /\ violated (node_readings x now) load cpu r = true).
+Proof.
+  intros Hc. split.
+  - intros ([r v] & H). apply slot_blocked_sound in H. exists r. tauto.
+  - intros (r & Hr & Hv). unfold slot_check. cbn [negb].
+    destruct (check_rules x now load cpu (get_rules rules ord)) as [rv|] eqn:E; [exists rv; reflexivity|].
+    exfalso. rewrite check_rules_none in E. rewrite (E r) in Hv; [discriminate|].
+    apply in_get_rules. split; [assumption|apply Hc; assumption].
+Qed.
+
+(* ---- reachable states ---- *)
+Section Run.
+Variables gn gitv vn vitv t0 : Z.
+Hypothesis Hgn : 0 < gn.
+Hypothesis Hgd : gitv mod gn = 0.
+Hypothesis Hgi : 0 < gitv < two32.
+Hypothesis Hvn : 0 <= vn.
+Hypothesis Hvitv : 0 <= vitv.
+Hypothesis Hck : check_reuse vn vitv gn gitv = true.
+Hypothesis Ht0 : 0 < t0.
+
+Let s0 := sys_state0 gn gitv vn vitv t0.
+
+Lemma WF0 : WF s0 0.
+Proof. unfold WF, s0, sys_state0, live_inbound, linb. cbn. repeat split; try lia; constructor. Qed.
+
+Transparent two31.
+Lemma run_readings ops now :
+  hist_mono t0 ops -> Z.of_nat (length ops) < two31 -> hist_last t0 ops <= now < two62' ->
+  node_readings (st_node (sys_after s0 ops)) now = ref_readings gn gitv vn vitv (ledger s0 ops) now
+  /\ in_flight (ledger s0 ops) = live_inbound (sys_after s0 ops).
+Proof.
+  intros Hm Hlen Hnow.
+  destruct (ledger_mono ops s0 t0 Hm) as [Lm Ll].
+  destruct (after_conc ops s0 0 WF0 ltac:(lia)) as [(Wc & _) Hc].
+  pose proof (after_node ops s0) as Hnode.
+  destruct (node_apply_list (ledger s0 ops) (st_node s0)) as (Ha & _ & Hv).
+  rewrite <- Hnode in Ha, Hv.
+  assert (C0 : nd_conc (st_node s0) = 0) by reflexivity. rewrite C0 in Hc, Ha. rewrite Z.add_0_l in Hc.
+  split; [|rewrite <- Hc; exact Wc].
+  apply (node_readings_ref gn gitv vn vitv t0); try assumption; try lia.
+Qed.
+Opaque two31.
+
+End Run.
+
+(* ------------------------------------------------------------------------------------------ *)
+(* the property theorems (restated verbatim in Properties/C07.v) *)
+
+Definition blocked_system (x : sobs) : Prop := exists tag v, x = OBlocked BlockTypeSystemFlow tag v.
+
+Lemma entry_obs s t inb b ord :
+  snd (sys_step s (OEntry t inb b ord)) =
+  match decide s t inb ord with Some (r, v) => OBlocked BlockTypeSystemFlow (s_tag r) v | None => OPassed end.
+Proof. cbn [sys_step]. destruct (decide s t inb ord) as [[r v]|]; reflexivity. Qed.
+
+(* system rules never block outbound traffic: in every state whatsoever *)
+Theorem outbound_never s t b ord :
+  snd (sys_step s (OEntry t false b ord)) = OPassed /\ step_events s (OEntry t false b ord) = [].
+Proof. split; reflexivity. Qed.
+
+Section Thm.
+Variables gn gitv vn vitv t0 : Z.
+Hypothesis Hgn : 0 < gn.
+Hypothesis Hgd : gitv mod gn = 0.
+Hypothesis Hgi : 0 < gitv < two32.
+Hypothesis Hvn : 0 <= vn.
+Hypothesis Hvitv : 0 <= vitv.
+Hypothesis Hck : check_reuse vn vitv gn gitv = true.
+Hypothesis Ht0 : 0 < t0.
+Variable ops : list sop.
+Variable t : Z.
+Hypothesis Hm : hist_mono t0 ops.
+Hypothesis Hlen : Z.of_nat (length ops) < two31.
+Hypothesis Hnow : hist_last t0 ops <= t < two62'.
+
+Let s0 := sys_state0 gn gitv vn vitv t0.
+Let s := sys_after s0 ops.
+Let rd := ref_readings gn gitv vn vitv (ledger s0 ops) t.
+
+Lemma decide_readings : node_readings (st_node s) t = rd.
+Proof. apply (run_readings gn gitv vn vitv t0 Hgn Hgd Hgi Hvn Hvitv Hck Ht0 ops t Hm Hlen Hnow). Qed.
+
+Theorem inbound_iff b ord : covers ord (sys_rules (st_rules s)) ->
+  (blocked_system (snd (sys_step s (OEntry t true b ord))) <->
+   exists r, In r (sys_rules (st_rules s)) /\ sys_valid r = true /\
+             violated rd (st_load s) (st_cpu s) r = true).
+Proof.
+  intros Hc. rewrite entry_obs. unfold decide.
+  pose proof (slot_blocked_iff (st_node s) t (st_load s) (st_cpu s) (sys_rules (st_rules s)) ord Hc) as HI.
+  rewrite decide_readings in HI.
+  assert (HV : Forall (fun r => sys_valid r = true) (sys_rules (st_rules s))).
+  { apply after_rules_valid. constructor. }
+  rewrite Forall_forall in HV.
+  split.
+  - intros (tag & v & E).
+    destruct (slot_check true (st_node s) t (st_load s) (st_cpu s) (sys_rules (st_rules s)) ord) as [[r v']|] eqn:ES; [|discriminate].
+    destruct (proj1 HI (ex_intro _ _ eq_refl)) as (r0 & A & B). exists r0. split; [assumption|]. split; [apply HV; assumption|assumption].
+  - intros (r & A & _ & B). destruct (proj2 HI (ex_intro _ r (conj A B))) as ([r' v'] & E). rewrite E.
+    exists (s_tag r'), v'. reflexivity.
+Qed.
+
+(* the rule reported by a blocked call is a loaded valid rule that is violated, and the
+   reported snapshot is the value of that rule's metric: for EVERY iteration order *)
+Theorem reported_rule_violated b ord tag v :
+  snd (sys_step s (OEntry t true b ord)) = OBlocked BlockTypeSystemFlow tag v ->
+  exists r, In r (sys_rules (st_rules s)) /\ sys_valid r = true /\ s_tag r = tag /\
+            violated rd (st_load s) (st_cpu s) r = true /\
+            v = metric_value rd (st_load s) (st_cpu s) r.
+Proof.
+  rewrite entry_obs. unfold decide.
+  destruct (slot_check true (st_node s) t (st_load s) (st_cpu s) (sys_rules (st_rules s)) ord) as [[r v']|] eqn:ES; [|discriminate].
+  intros X. injection X as <- <-.
+  apply slot_blocked_sound in ES. rewrite decide_readings in ES. destruct ES as (A & _ & B & C).
+  assert (HV : Forall (fun r => sys_valid r = true) (sys_rules (st_rules s))).
+  { apply after_rules_valid. constructor. }
+  rewrite Forall_forall in HV.
+  exists r. repeat split; try assumption. apply HV. assumption.
+Qed.
+
+(* with no violated rule (in particular with no rule) every inbound request passes, for every
+   iteration order, and is recorded as admitted *)
+Theorem no_rule_pass b ord :
+  (forall r, In r (sys_rules (st_rules s)) -> violated rd (st_load s) (st_cpu s) r = false) ->
+  snd (sys_step s (OEntry t true b ord)) = OPassed /\ step_events s (OEntry t true b ord) = [NPass t b].
+Proof.
+  intros H. rewrite entry_obs. cbn [step_events]. unfold decide, slot_check. cbn [negb].
+  assert (E : check_rules (st_node s) t (st_load s) (st_cpu s) (get_rules (sys_rules (st_rules s)) ord) = None).
+  { apply check_rules_none. intros r Hr. rewrite decide_readings. apply H. apply in_get_rules in Hr. tauto. }
+  rewrite E. split; reflexivity.
+Qed.
+
+(* the in-flight reference is the number of inbound entries admitted and not yet exited *)
+Theorem inflight_is_live : rd_conc rd = live_inbound s.
+Proof.
+  apply (run_readings gn gitv vn vitv t0 Hgn Hgd Hgi Hvn Hvitv Hck Ht0 ops t Hm Hlen Hnow).
+Qed.
+
+End Thm.
